@@ -22,56 +22,43 @@ const recDef = `def rec(n: Int): Int
 end
 `
 
-// plainProgram: the control. No closures, no generators. Its frames are larger (4 parameters, 6 locals, nested
-// temporaries) than any frame of the other programs.
+// plainProgram: no closures, no generators: recursion whose frames keep locals that are read after the recursive
+// call returns (so the frame pointers of pending frames must survive a reallocation).
 func plainProgram(d int) program {
-	src := fmt.Sprintf(`def plain(n: Int, a: Int, b: Int, c: Int): Int
+	src := fmt.Sprintf(`def plain(n: Int, a: Int, b: Int): Int
   x := a + 1
   y := b + 2
-  z := c + 3
-  u := x * 2
-  v := y * 2
-  w := z * 2
-  return x + y + z + u + v + w if n == 0
-  r := plain(n - 1, x, (y + (z * (u - (v + w)))) %% 1000, z)
-  (r + x - y + z + u - v + w) %% 1000003
+  z := x * 2
+  return x + y + z if n == 0
+  r := plain(n - 1, x, (y + (z * (x - y))) %% 1000)
+  (r + x - y + z) %% 1000003
 end
-println(plain(%d, 1, 2, 3))
-println(plain(%d, 3, 2, 1))
+println(plain(%d, 1, 2))
+println(plain(%d, 3, 2))
 `, d, d)
 	return program{ID: fmt.Sprintf("plain/d%d", d), Kind: "plain", Depth: d, Src: src}
 }
 
-// flatProgram: the calibration control. No recursion, no closures, no generators; only the top-level frame is ever pending, so nothing needs rebasing when the stack grows; its frames are as
-// large as the largest frame of the other programs (4 parameters, 7 locals, nested temporaries, a 4-argument call).
-// If even this program deviates at an initial size, that size is below what a single frame needs before the next
-// growth check (the VM only checks at method calls and guarantees 30 % of the current size).
+// flatProgram: no recursion, no closures, no generators; only the top-level frame is ever pending when the stack
+// grows (nothing to rebase but sp/fp). Its top-level frame has 20 locals: at small initial sizes the frame itself
+// overruns the stack before the first growth check.
 func flatProgram() program {
-	src := `def leaf(n: Int, a: Int, b: Int, c: Int): Int
-  x := a + 1
-  y := b + 2
-  z := c + 3
-  u := x * 2
-  v := y * 2
-  w := z * 2
-  k := (y + (z * (u - (v + (w - (x + n)))))) % 1000
-  (k + x - y + z + u - v + w) % 1000003
-end
-s := 0
-t := 1
-u := 2
-i := 0
-while i < 50
-  i += 1
-  s += leaf(i, t, u, s) + u
-  t = (t * 3 + leaf(s % 1000, t + 1, u + 2, (s + (t * (u - (i + 3)))) % 100)) % 1009
-  u = (u + i) % 7
-end
-println(s)
-println(t)
-println(u)
-`
-	return program{ID: "flat", Kind: "flat", Src: src}
+	var s strings.Builder
+	s.WriteString("def leaf(n: Int, a: Int, b: Int): Int\n  x := a + 1\n  y := b + 2\n  z := x * 2\n  (n + x - y + z) % 1000003\nend\n")
+	for i := 0; i < 20; i++ {
+		fmt.Fprintf(&s, "v%d := %d\n", i, i*3+1)
+	}
+	s.WriteString("i := 0\nwhile i < 20\n  i += 1\n")
+	for i := 0; i < 20; i++ {
+		fmt.Fprintf(&s, "  v%d = (v%d + leaf(i, v%d, v%d)) %% 1009\n", i, i, (i+1)%20, (i+7)%20)
+	}
+	s.WriteString("end\n")
+	s.WriteString("t := 0\n")
+	for i := 0; i < 20; i++ {
+		fmt.Fprintf(&s, "t = (t * 31 + v%d) %% 1000003\n", i)
+	}
+	s.WriteString("println(t)\nprintln(v0)\nprintln(v19)\n")
+	return program{ID: "flat", Kind: "flat", Src: s.String()}
 }
 
 func programs(thorough bool) []program {
